@@ -27,6 +27,7 @@ import (
 	"time"
 
 	"github.com/openbao/openbao/sdk/v2/helper/verif/vout"
+	"github.com/openbao/openbao/sdk/v2/helper/consts"
 	"github.com/openbao/openbao/sdk/v2/logical"
 	"github.com/openbao/openbao/v2/internal/vault"
 )
@@ -339,6 +340,62 @@ func c06UsableDuringRestore(t *testing.T, s *Sys, kind c06Kind, holdKey, tok str
 	return usable, true
 }
 
+// c06PartQ: unusual but legitimate inputs that reach the lease registration on paths of their
+// own: (1) an engine that returns a freshly generated secret TOGETHER WITH an error, (2) a
+// request that authenticates inline (X-Vault-Inline-Auth-Path, single-request tokens cannot
+// hold leases). Whatever the core answers, the two outcomes of the statement are the only
+// ones: a durable lease + index entry exist for the generated secret, or the secret was
+// revoked at its backend and nothing of it reached the client.
+func c06PartQ(t *testing.T, res *vout.Result, img *Image, tok string) {
+	for _, kind := range []string{"secret+error", "secret-inline-auth"} {
+		s := Boot(t, img)
+		idsB, idxB := expireKeys(s)
+		issuedB := len(s.Rec.IssuedIDs())
+		req := &logical.Request{ClientToken: tok, Operation: logical.ReadOperation, Path: "rec/lease/x", Connection: &logical.Connection{RemoteAddr: "127.0.0.1"}}
+		if kind == "secret+error" {
+			req.Path = "rec/lease/witherr/x"
+		} else {
+			req.ClientToken = ""
+			req.Headers = map[string][]string{consts.InlineAuthPathHeaderName: {"auth/ra/login"}}
+			s.Rec.mu.Lock()
+			s.Rec.LoginAuth = func(*logical.Request) *logical.Auth {
+				return &logical.Auth{Policies: []string{"p06"}, LeaseOptions: logical.LeaseOptions{TTL: time.Hour}}
+			}
+			s.Rec.mu.Unlock()
+		}
+		resp, err := s.Core.HandleRequest(rootCtx(), req)
+		s.Rec.mu.Lock()
+		s.Rec.LoginAuth = nil
+		s.Rec.mu.Unlock()
+		s.settle()
+		res.Add("executions", 1)
+		res.Add("quirk_runs", 1)
+		idsA, idxA := expireKeys(s)
+		issued := s.Rec.IssuedIDs()[issuedB:]
+		rp := map[string]interface{}{"kind": kind}
+		txt := respText(resp) + " " + ErrText(resp, err)
+		for _, id := range issued {
+			leased := len(idsA) > len(idsB) && len(idxA) > len(idxB)
+			revoked := s.Rec.RevokedCount(id) > 0
+			inHand := strings.Contains(txt, "CANARY-"+id)
+			switch {
+			case !leased && !revoked:
+				res.Violate("c06:quirk:secret-neither-leased-nor-revoked", fmt.Sprintf("%s: the engine generated secret %s; afterwards there is no lease + index record for it and it was not revoked at its backend either (client got: ok=%v, secret in the answer=%v)", kind, id, OK(resp, err), inHand), rp)
+			case inHand && !leased:
+				res.Violate("c06:quirk:credential-without-lease", fmt.Sprintf("%s: the answer to the client carries secret %s but no lease + index record exists", kind, id), rp)
+			}
+			res.Distinct("nontrivial", fmt.Sprintf("Q|%s|leased=%v|revoked=%v|inhand=%v", kind, leased, revoked, inHand))
+		}
+		if len(issued) == 0 {
+			res.Distinct("nontrivial", fmt.Sprintf("Q|%s|engine-not-reached|ok=%v", kind, OK(resp, err)))
+		}
+		if msg := trackingInvariant(s); msg != "" {
+			res.Violate("c06:quirk:tracking", fmt.Sprintf("%s: %s", kind, msg), rp)
+		}
+		s.Close()
+	}
+}
+
 // c06PartX: the client goes away (its request context is cancelled) while the backend is
 // generating the leased secret. Whatever happens next, the two outcomes of the statement
 // are the only ones: the client holds the secret and a lease + index exist, or the client
@@ -415,6 +472,7 @@ func TestVerifC06(t *testing.T) {
 		img, tok := c06Image(t, nonTxn)
 		if i, _ := vout.Shard(); i == 0 && only == "" {
 			c06PartX(t, res, img, tok)
+			c06PartQ(t, res, img, tok)
 		}
 		for _, kind := range c06Kinds() {
 			if only != "" && only != kind.Name {
